@@ -1469,6 +1469,8 @@ class Engine:
             return v
         if isinstance(v, z3.ExprRef):
             return fresh(name, v.sort())
+        if hasattr(v, "e") and isinstance(getattr(v, "e"), z3.ExprRef):
+            return type(v)(fresh(name, v.e.sort()))       # ghost wrappers around a z3 term
         raise Unsupported("cannot havoc %r" % (v,))
 
     # --- inlining -----------------------------------------------------------------------------------------------------
